@@ -48,7 +48,13 @@ CLAIM = dict(
     note="rotcorr_quarter_turn_2d/3d and warp_quarter_turn_voxel_exact describe EXACT quarter-turn matrices - a state reached by "
     "assigning rotation_inv on the object (that is how they are tied); RotationCorrection / AffineTransformation built from the ANGLE "
     "pi/2 carry cos = 6e-17, which under astype(int) / floor lowers integer pre-images by one (known finding, signature restricted to "
-    "exactly that pattern). The per-object warp cache is modelled and tied in C10 (transf_cache_transparent, transfrun). "
+    "exactly that pattern). The per-object warp cache is keyed by the state of the transformation (warp_cache_tracks_parameters: after "
+    "any sequence of applications and parameter changes the object returns what a fresh object with the current parameters returns; "
+    "warp_cache_stale_witness before the fix), tied exactly through applications interleaved with set_parameters and searched by the "
+    "oracle (set_parameters, set_parameters_as_vector, new transformation object). The quarter-turn noise mask follows "
+    "quarter_turn_voxel_noise_direction (+pi/2: only the first source index, only where v0 < n1-1). fit2_is_folded and "
+    "coordtransf_meta are definitional. Not covered: 3-D quarter turns in coordinate mode about y and z and in voxel mode (same "
+    "breakpoint noise as 2-D), RotationCorrection quarter turns other than about the centre voxel of odd squares / cubes. "
     "scipy from_rotvec matrices, numpy fancy assignment and float rounding are tied by correspondence (1e-12 / exact on "
     "dyadic inputs / breakpoint-aware on true rotations), not proved; quarter turn in *voxel* mode is decided by float noise "
     "of cos(pi/2) on rounding breakpoints (known finding, observed only); the Powell search itself is out of scope; DarSIA's algebra around it (centre-of-mass "
@@ -453,6 +459,48 @@ def check_typed_case(ctx, d, case):
     return bad
 
 
+def corr_cache_ops(ctx, d, rnd_name):
+    """one TransformationCorrection object through a sequence of applications and parameter changes (set_parameters on its
+    transformation): the result of the last application vs the model of the version-keyed cache (exact, dyadic)"""
+    rng = ctx.rng
+    lines, impl = [], []
+    for i in range(ctx.pick(15, 150)):
+        mode = MODES[i % 3]
+        sshape = (rng.randint(1, 4), rng.randint(1, 4))
+        hs = Fr(1, rng.choice([1, 2]))
+        t0 = [Fr(rng.randint(-4, 4), 2), Fr(rng.randint(-4, 4), 2)]
+        ops = []
+        for _ in range(rng.randint(1, 5)):
+            if rng.random() < 0.5:
+                ops.append(("S", [Fr(rng.randint(-4, 4), 2), Fr(rng.randint(-4, 4), 2)]))
+            else:
+                ops.append(("A", np.array([rng.randint(1, 99) for _ in range(sshape[0] * sshape[1])], dtype=np.float64).reshape(sshape)))
+        ops.append(("A", np.array([rng.randint(1, 99) for _ in range(sshape[0] * sshape[1])], dtype=np.float64).reshape(sshape)))
+
+        def run():
+            src = d.Image(np.zeros(sshape), dimensions=[float(n * hs) for n in sshape])
+            T = mk_T(d, 2, mode, t0, 1.0, None)
+            C = d.TransformationCorrection(src.coordinatesystem, src.coordinatesystem, T)
+            out = None
+            for kind, x in ops:
+                if kind == "S":
+                    T.set_parameters(np.array([float(v) for v in x]), 1.0, None)
+                else:
+                    out = C.correct_array(x.copy())
+            return cs_line(src), "f64 " + " ".join(str(n) for n in out.shape) + " | " + " ".join(fmt(v) for v in out.ravel())
+
+        r = call(run)
+        if isinstance(r, Raised):
+            continue
+        csl, res = r
+        tok = lambda x: "f64 " + " ".join(str(n) for n in x.shape) + " " + " ".join(fmt(v) for v in x.ravel())  # noqa: E731
+        lines.append(f"transfops {rnd_name} {mode} {csl} {csl} {fmt(t0[0])} {fmt(t0[1])} 1 0 {len(ops)} "
+                     + " ".join(("A " + tok(x)) if k == "A" else f"S {fmt(x[0])} {fmt(x[1])} 1 0" for k, x in ops))
+        impl.append(res)
+    return ctx.correspond("TransformationCorrection: applications interleaved with set_parameters on one object (version-keyed cache), exact",
+                          lines, impl, driver="C10")
+
+
 def corr_fit_fold(ctx, d):
     """AffineTransformation.fit with scipy.optimize.minimize replaced by a recorder that returns GIVEN inner parameters: the start
     vector, the objective at the start (on the shifted points), and the folded translation / scaling / rotation and the fitted
@@ -789,8 +837,12 @@ def check_warp_case(ctx, d, case):
                     for j in range(exp.shape[1]):
                         e0, e1 = (j, n1 - 1 - i) if sgn > 0 else (n0 - 1 - j, i)
                         ok = False
-                        for a0 in (0, 1):
-                            for a1 in (0, 1):
+                        # theorem quarter_turn_voxel_noise_direction: for +pi/2 only the FIRST source index can come out lower
+                        # (and only where v0 < n1 - 1), for -pi/2 only the SECOND (only where v1 < n0 - 1)
+                        low0 = (0, 1) if (sgn > 0 and i < n1 - 1) else (0,)
+                        low1 = (0, 1) if (sgn < 0 and j < n0 - 1) else (0,)
+                        for a0 in low0:
+                            for a1 in low1:
                                 p0, p1 = e0 - a0, e1 - a1
                                 want = arr[p0, p1] if (0 <= p0 < n0 and 0 <= p1 < n1) else np.zeros_like(arr[0, 0])
                                 ok = ok or np.array_equal(out[i, j], want)
@@ -800,6 +852,34 @@ def check_warp_case(ctx, d, case):
             bad.append((f"C09:warp(quarter-turn,mode={mode}):{cls}",
                         f"quarter turn ({'+' if sgn > 0 else '-'}pi/2) of shape {shape} in {mode} mode is not np.rot90"
                         + (" (differs only at voxels whose exact integer pre-image was lowered by one)" if cls != "not-rot90" else "")))
+    elif kind == "cache-after-set":
+        # the per-object warp cache must follow the transformation: apply, change the parameters on the SAME object, apply again
+        k1, k2 = case["k1"], case["k2"]
+        how = case["how"]
+
+        def run():
+            T = mk_T(d, dim, mode, shift_vec(mode, h, k1, dim), 1.0, None)
+            C = d.TransformationCorrection(src.coordinatesystem, src.coordinatesystem, T)
+            first = C.correct_array(arr.copy())
+            if how == "set_parameters":
+                T.set_parameters(np.array([float(x) for x in shift_vec(mode, h, k2, dim)]), 1.0, None)
+            elif how == "set_parameters_as_vector":
+                T.set_parameters_as_vector(np.array([float(x) for x in shift_vec(mode, h, k2, dim)] + [1.0] + [0.0] * (1 if dim == 2 else 3)))
+            else:  # a new transformation object is installed on the correction
+                C.transformation = mk_T(d, dim, mode, shift_vec(mode, h, k2, dim), 1.0, None)
+            return first, C.correct_array(arr.copy())
+
+        r = call(run)
+        if isinstance(r, Raised):
+            return [(f"C09:warp-cache({how}):raises", f"{r}")]
+        first, second = r
+        if not np.array_equal(first, shifted(arr, k1, dim)):
+            return [(f"C09:warp(shift,mode={mode}):wrong-array", f"shift by {k1} on {shape} is not the zero-filled shift")]
+        if not np.array_equal(second, shifted(arr, k2, dim)):
+            stale = np.array_equal(second, first)
+            bad.append((f"C09:warp-cache:stale-after-{how}",
+                        f"after the shift by {k1} the parameters were changed to a shift by {k2} on the same object ({how}): the second "
+                        f"result {'is still the FIRST warp (stale cache)' if stale else 'is neither warp'}; a fresh object gives the shift by {k2}"))
     elif kind == "resample":
         # whole-voxel translation between DIFFERENT systems (shape, voxel size, origin), all three modes
         k = case["k"]
@@ -1175,6 +1255,16 @@ def oracle(ctx, d):
                     dtype=rng.choice(dtypes), trail=rng.choice([[], [], [3]]))
         ctx.count(("resample", dim, mode, tuple(shape), tuple(dshape), tuple(case["k"])))
         report(ctx, check_warp_case(ctx, d, case), case)
+    for i in range(ctx.pick(12, 120)):
+        dim = 2 if i % 3 else 3
+        shape = [rng.choice([2, 3, 4, 5]) for _ in range(dim)]
+        k1 = [rng.randint(-1, 1) for _ in range(dim)]
+        k2 = [x + rng.choice([1, -1, 2]) for x in k1]
+        case = dict(kind="cache-after-set", dim=dim, mode=MODES[i % 3], shape=shape, h=[str(Fr(1, rng.choice([1, 2]))) for _ in range(dim)],
+                    k1=k1, k2=k2, how=("set_parameters", "set_parameters_as_vector", "new-transformation")[(i // 3) % 3],
+                    dtype=rng.choice(dtypes), trail=[])
+        ctx.count(("cache-after-set", dim, case["mode"], case["how"], tuple(shape)))
+        report(ctx, check_warp_case(ctx, d, case), case)
     for i in range(ctx.pick(8, 120)):
         shape = [rng.choice([1, 2, 3, 4, 5]) for _ in range(3)]
         case = dict(kind="quarter3-coord", dim=3, mode="coord", shape=shape, h=[str(Fr(1, rng.choice([1, 2, 4]))) for _ in range(3)],
@@ -1317,6 +1407,7 @@ def run(ctx):
     corr_ctmeta(ctx, d)
     corr_fit_fold(ctx, d)
     corr_typed_points(ctx, d, rnd_name)
+    corr_cache_ops(ctx, d, rnd_name)
     # (4) oracle
     oracle(ctx, d)
 
